@@ -166,6 +166,10 @@ pub enum Edit {
     DupSegment,
     SwapHeader(u8),
     Truncate(u16),
+    /// a stretch of the header between two of its dots (with or without the closing dot) inserted again,
+    /// 1..3 times: `k4.local-wrap.pie..local-wrap.pie.<data>`, `v4.local.local.<data>`
+    #[serde(alias = "RepeatHeader")]
+    RepeatHeaderPart { from: u8, to: u8, closing_dot: bool, times: u8 },
 }
 
 const CHARSET: &[&str] = &[
@@ -213,6 +217,19 @@ fn apply(s: &str, e: &Edit, headers: &[String]) -> String {
             format!("{}{}", headers[*k as usize % headers.len()], body)
         }
         Edit::Truncate(i) => chars[..at(*i)].iter().collect(),
+        Edit::RepeatHeaderPart { from, to, closing_dot, times } => {
+            // the dots of the header: all but the last '.'-separated section (tokens: all but the last two when a footer is present - close enough: the first 2..4 dots)
+            let dots: Vec<usize> = s.match_indices('.').map(|(i, _)| i).take(4).collect();
+            if dots.len() < 2 {
+                return s.to_string();
+            }
+            let a = (*from as usize) % (dots.len() - 1);
+            let b = a + 1 + (*to as usize) % (dots.len() - 1 - a);
+            let (i, j) = (dots[a], dots[b]);
+            let part = if *closing_dot { &s[i..=j] } else { &s[i..j] };
+            let at = if *closing_dot { j + 1 } else { j };
+            format!("{}{}{}", &s[..at], part.repeat(1 + (*times as usize) % 3), &s[at..])
+        }
     }
 }
 
@@ -234,6 +251,7 @@ fn edit_strategy() -> impl Strategy<Value = Edit> {
         1 => Just(Edit::DupSegment),
         2 => any::<u8>().prop_map(Edit::SwapHeader),
         2 => any::<u16>().prop_map(Edit::Truncate),
+        2 => (any::<u8>(), any::<u8>(), any::<bool>(), any::<u8>()).prop_map(|(from, to, closing_dot, times)| Edit::RepeatHeaderPart { from, to, closing_dot, times }),
     ]
 }
 
@@ -371,7 +389,10 @@ fn type_strategy() -> impl Strategy<Value = TypeCase> {
         2 => proptest::collection::vec(any::<u8>(), 80..200),
         1 => Just(Vec::new()),
     ];
-    let footer = prop_oneof![2 => Just(Vec::new()), 2 => proptest::collection::vec(any::<u8>(), 1..30)];
+    // footers: none, bytes, and JSON texts in spellings a serialiser of this library would not choose
+    // (whitespace, escapes, unsorted keys, a non-object) - for the token types with a typed JSON footer
+    let json_footers: Vec<Vec<u8>> = [r#"{"kid": "key-1"}"#, r#"{ "b":1, "a":2 }"#, r#"{"k":"\u002d"}"#, r#"[1, 2]"#, r#" {"a":1}"#, "{\"a\":1}\n", r#"{"a":1.0}"#, r#"{"a":1e2}"#, r#"{"kid":"k","kid":"l"}"#, r#""text""#, r#"{"a":{"c":1,"b":2}}"#, r#"{}"#].iter().map(|x| x.as_bytes().to_vec()).collect();
+    let footer = prop_oneof![2 => Just(Vec::new()), 2 => proptest::collection::vec(any::<u8>(), 1..30), 1 => prop::sample::select(json_footers)];
     let arbitrary = prop_oneof![
         8 => Just(None),
         1 => "[ -~]{0,60}".prop_map(Some),
